@@ -17,8 +17,8 @@ git apply $d/patch.diff || { echo "$id: patch does not apply" > $d/verified.txt;
 go build ./... >/dev/null 2>&1 && res="$res build=ok" || res="$res build=FAIL"
 timeout 600 go test -vet=off -count=1 ./... >/tmp/seedverify/$id.suite.log 2>&1 && res="$res suite_with_change=pass" || res="$res suite_with_change=FAIL"
 cp $d/demo_test.go $dir/$name
-timeout 300 go test -vet=off -count=1 -run 'Demo|C[0-9]+M|Seed' ./$dir >/tmp/seedverify/$id.demo1.log 2>&1 && res="$res demo_with_change=PASS(unexpected)" || res="$res demo_with_change=fails"
+timeout 300 go test -vet=off -count=1 ./$dir >/tmp/seedverify/$id.demo1.log 2>&1 && res="$res demo_with_change=PASS(unexpected)" || res="$res demo_with_change=fails"
 rm -f $dir/$name; git checkout -- . ; cp $d/demo_test.go $dir/$name
-timeout 300 go test -vet=off -count=1 -run 'Demo|C[0-9]+M|Seed' ./$dir >/tmp/seedverify/$id.demo2.log 2>&1 && res="$res demo_without_change=passes" || res="$res demo_without_change=FAIL(unexpected)"
+timeout 300 go test -vet=off -count=1 ./$dir >/tmp/seedverify/$id.demo2.log 2>&1 && res="$res demo_without_change=passes" || res="$res demo_without_change=FAIL(unexpected)"
 rm -f $dir/$name
 echo "$id:$res" | tee $d/verified.txt
